@@ -13,6 +13,7 @@ real binary) and keyed by that node's root construct.
 import os
 import random
 import re
+import shutil
 
 from vf import core, tools
 from vf.gen import exprgen as E
@@ -231,6 +232,8 @@ class Runner:
             if r2.timed_out:
                 raise Watchdog()        # C07 does not promise termination; C15 does
             r = r2
+        if r.died() or r.rc != 0:
+            shutil.rmtree(sub, ignore_errors=True)
         if r.died():
             return (died_kind(r), ",".join(r.frames(3))), None, r
         if r.rc != 0:
@@ -255,6 +258,7 @@ class Runner:
         if d is None:
             # the database interrogate wrote cannot be read back: not a statement about constants (C11/C12's matter)
             raise core.HarnessError("idbdump cannot read %s: %s" % (paths["od"], rr.err[-300:]))
+        shutil.rmtree(sub, ignore_errors=True)
         return None, read_db(d), r
 
 
@@ -1105,6 +1109,7 @@ def run_case(ctx, case):
     except Watchdog:
         res.inconclusive = "watchdog"
         res.count("timeouts")
+    shutil.rmtree(ctx.casedir(case["id"]), ignore_errors=True)
     return res
 
 
